@@ -407,6 +407,8 @@ pub fn run_sharded(def: &PropertyDef, cfg: &Cfg) -> Stats {
                     .arg(&out)
                     .arg(&progress)
                     .stdin(std::process::Stdio::null())
+                    .stdout(if std::env::var_os("ZV_SHARD_OUTPUT").is_some() { std::process::Stdio::inherit() } else { std::process::Stdio::null() })
+                    .stderr(if std::env::var_os("ZV_SHARD_OUTPUT").is_some() { std::process::Stdio::inherit() } else { std::process::Stdio::null() })
                     .spawn()
                     .expect("spawn shard");
                 running.push((child, k, start, attempt, out, progress));
